@@ -152,6 +152,12 @@ def gen_problem(rng, feat=None):
     tidx = tuple(rng.sample(pool, to))
     assignment = f"A({','.join(tidx)}) = {_expr_to_str(e, rng)}"
     formats = {"A": _fmt(rng, len(tidx), feat)}
+    if tidx and "s" not in formats["A"] and rng.random() < 0.5:
+        # outputs with at least one compressed level are where C02/C04/C05 have something to say
+        f = list(formats["A"])
+        pos = [i for i, ch in enumerate(f) if ch == "d"]
+        f[rng.choice(pos)] = "s"
+        formats["A"] = "".join(f)
     tensors = {}
     for _, n, ix in used_refs:
         if n not in tensors:
@@ -202,7 +208,7 @@ def gen_entries(rng, dims, density=None):
     if total == 0:
         return []
     allc = list(itertools.product(*[range(d) for d in dims]))
-    k = rng.choice([0, 1, 2, max(1, total // 2), total, total]) if density is None else density
+    k = rng.choice([0, 1, 2, max(1, total // 2), max(1, total // 2), total, total, total]) if density is None else density
     k = min(k, total)
     coords = rng.sample(allc, k)
     return [[list(c), gen_value(rng)] for c in coords]
